@@ -292,22 +292,6 @@ class ProcessNonLatent(_ProcessEvents):
 
 
 @register
-class Notify(Contract):
-    """ASSUMED here (verified for C04): notifying an environment event (EventStep/EventDone) raises nothing and
-    changes neither the account nor the flags"""
-    relpath, qual = REL_ENV, "TradingEnv.notify"
-    assumed = True
-    props = ("C04",)
-
-    def modifies(self, c):
-        return [("field", c.self, "_last_event")]
-
-    def havoc(self, c):
-        c.I.fset(c.self, "_last_event", c.event)
-        c.I.trace.append(("notify", getattr(c.event, "cls", "?")))
-
-
-@register
 class StateCall(Contract):
     """ASSUMED: building the observation raises nothing (its content and bounds are C18's subject)"""
     relpath, qual = "tradingenv/state.py", "IState.__call__"
@@ -433,3 +417,139 @@ class Step(Contract):
         if reb_raised:
             out.append(Cl("done_on_insolvent_decision", done1))
         return out
+
+
+# ============================================================================= event dispatch (C04)
+from pyvc.contract import LoopBodyContract
+
+
+class ObservedEvents:
+    """observer._observed_events: {event class name: callback name}; whether this observer subscribes to the event's type is
+    an arbitrary boolean of the observer"""
+
+    def __init__(self, observes):
+        self.observes = observes
+
+    def py_contains(self, I, item):
+        if not isinstance(item, str):
+            raise Unsupported("event class name %r" % (item,))
+        return self.observes
+
+    def py_getitem(self, I, k):
+        return CallbackName(k)
+
+
+class CallbackName:
+    def __init__(self, event_cls):
+        self.event_cls = event_cls
+
+    def py_attr_of(self, I, obj):
+        return Callback(obj, self.event_cls)
+
+
+class Callback:
+    def __init__(self, obj, event_cls):
+        self.obj, self.event_cls = obj, event_cls
+
+    def py_call(self, I, args, kwargs):
+        I.trace.append(("callback", self.obj.oid, self.event_cls, args[0].oid if isinstance(args[0], Obj) else None))
+        return None
+
+
+@register
+class DispatchBody(LoopBodyContract):
+    """C04: an event is handed exactly once to each observer subscribed to its type (and to no other), which is then stamped
+    with the event's time"""
+    relpath, qual, ordinal = "tradingenv/events.py", "IEvent.notify", 0
+    props = ("C04",)
+
+    def pre_env(self, I):
+        ev = I.new_rec("EventNBBO", time=I.tm("event_time"))
+        obs = I.new_rec("Observer", _observed_events=ObservedEvents(I.bool("subscribed")), last_update=None,
+                        _nr_callbacks=In(I.int("nr_callbacks")))
+        return {"self": ev, "observer": obs, "observers": Opaque("observers")}
+
+    def ensures(self, c):
+        I = c.I
+        sub = c.old[c.observer.oid]["_observed_events"].observes
+        calls = [t for t in I.trace if t[0] == "callback"]
+        f0, f1 = c.old[c.observer.oid], c.new[c.observer.oid]
+        t = c.old[c.self.oid]["time"].v
+        out = [Cl("no_exception", z3.BoolVal(c.exc is None))]
+        if calls:
+            out += [Cl("callback_iff_subscribed", sub),
+                    Cl("exactly_once_with_this_event", z3.BoolVal(len(calls) == 1 and calls[0][1] == c.observer.oid and calls[0][3] == c.self.oid
+                                                                  and calls[0][2] == "EventNBBO")),
+                    Cl("stamped", z3.And(z3.BoolVal(isinstance(f1["last_update"], Fl)), lift_fl(f1["last_update"]).v == t
+                                         if isinstance(f1["last_update"], Fl) else FALSE, f1["_nr_callbacks"].v == f0["_nr_callbacks"].v + 1))]
+        else:
+            out += [Cl("callback_iff_subscribed", z3.Not(sub)),
+                    Cl("untouched", z3.And(z3.BoolVal(f1["last_update"] is None), f1["_nr_callbacks"].v == f0["_nr_callbacks"].v))]
+        return out
+
+
+@register
+class EventDispatch(Contract):
+    """ASSUMED summary of IEvent.notify over the whole observer tuple (its loop body is verified: DispatchBody): raises nothing"""
+    relpath, qual = "tradingenv/events.py", "IEvent.notify"
+    assumed = True
+    props = ("C04",)
+
+    def havoc(self, c):
+        c.I.trace.append(("dispatch", c.self.oid if isinstance(c.self, Obj) else None))
+
+
+@register
+class NotifyClock(Contract):
+    """C04: while an event is dispatched the environment clock and the process-wide contract clock are the event's time; a new-date
+    notification (stamped with the previous event's time) is sent first iff the calendar date changed; the event becomes the
+    last event."""
+    relpath, qual = REL_ENV, "TradingEnv.notify"
+    props = ("C04", "C10")
+
+    def pre_state(self, I):
+        has_last = I.choice(2) == 1
+        last = I.new_rec("EventNBBO", time=I.tm("last_time")) if has_last else None
+        ev = I.new_rec("EventNBBO", time=I.tm("event_time"))
+        env = I.new_rec("TradingEnv", _last_event=last, _now=I.tm("now0"), _observers=Opaque("observers"), broker=I.new_rec("Broker"))
+        return {"self": env, "event": ev}
+
+    def modifies(self, c):
+        return [("field", c.self, "_now"), ("field", c.self, "_last_event"), ("global", "AbstractContract.now")]
+
+    def havoc(self, c):
+        I = c.I
+        I.fset(c.self, "_now", c.old[c.event.oid]["time"])
+        I.fset(c.self, "_last_event", c.event)
+        I.__dict__.setdefault("class_attrs", {})[("AbstractContract", "now")] = c.old[c.event.oid]["time"]
+        I.trace.append(("global_write", "AbstractContract.now"))
+        I.wrote(-1, "AbstractContract.now")
+        I.trace.append(("notify", getattr(c.event, "cls", "?")))
+
+    def ensures(self, c):
+        I = c.I
+        if c.callsite:
+            return []
+        f0, f1 = c.old[c.self.oid], c.heap()[c.self.oid]
+        t = c.old[c.event.oid]["time"].v
+        last = f0["_last_event"]
+        new_date = FALSE if last is None else z3.ToInt(c.old[last.oid]["time"].v / 86400) != z3.ToInt(t / 86400)
+        tr = I.trace
+        disp = [i for i, x in enumerate(tr) if x[0] == "dispatch"]
+        inner = [i for i, x in enumerate(tr) if x == ("call", "TradingEnv.notify")]
+        gw = [i for i, x in enumerate(tr) if x == ("global_write", "AbstractContract.now")]
+        clock_at_dispatch = bool(disp) and bool(gw) and gw[-1] < disp[-1] and (not inner or inner[-1] < gw[-1])
+        out = [
+            Cl("clock", z3.And(z3.BoolVal(isinstance(f1["_now"], Fl)), lift_fl(f1["_now"]).v == t if isinstance(f1["_now"], Fl) else FALSE)),
+            Cl("global_clock", z3.BoolVal(("AbstractContract", "now") in I.__dict__.get("class_attrs", {})) if True else TRUE),
+            Cl("clock_set_after_new_date_and_before_dispatch", z3.BoolVal(clock_at_dispatch)),
+            Cl("last_event", z3.BoolVal(f1["_last_event"] is c.event or (isinstance(f1["_last_event"], Obj) and f1["_last_event"].oid == c.event.oid))),
+            Cl("dispatched_once", z3.BoolVal(len([x for x in tr if x == ("dispatch", c.event.oid)]) == 1)),
+            Cl("new_date_iff_date_changed", z3.BoolVal(bool(inner)) == new_date),
+        ]
+        ga = I.__dict__.get("class_attrs", {}).get(("AbstractContract", "now"))
+        if ga is not None:
+            out.append(Cl("global_clock_is_event_time", lift_fl(ga).v == t))
+        return out
+
+
